@@ -10,7 +10,8 @@
 //     local    cluster id of the controller
 //     max      cluster.API.MaxItemsPerResponse
 //     remotes  ids in conn.remotes ("-" none); may contain the local id (a decoy that must never be used)
-//     opts     count/limit/offset/order/select/bypass/fwd   ("~" empty string, "-" nil list, lists joined by "+")
+//     opts     count/limit/offset/order/select/bypass/fwd[/xyz]   ("~" empty string, "-" nil list, lists joined by
+//              "+"; optional xyz = include_trash, include_old_versions, distinct as bits, default 000)
 //     filters  "-" or attr~op~operand;...   operand: s:<str> | i:<e,..> ([]interface{}, "#n" = non-string) |
 //              t:<e,..> ([]string) | n:<int> (other type)
 //     world    "-" or uuid@ts,...            objects held by the backend whose id is the uuid's first 5 characters
@@ -23,7 +24,7 @@
 // Result line:
 //   ok <uuid,..|-> | <id>: <call> // <call> | <id>: ...      (backends in id order; "-" instead of the log when no call)
 //   err <status> | ...
-//   call = F=<filters> S=<select> W=<fwd> C=<count> L=<limit> O=<offset> R=<order> B=<bypass> => E<status>|P<uuid,..|->
+//   call = F=<filters> S=<select> W=<fwd> C=<count> L=<limit> O=<offset> R=<order> B=<bypass> X=<xyz> => E<status>|P<uuid,..|->
 // A []string operand is printed sorted (its order comes from a Go map); non-string values print as "#" / "n:".
 package federation
 
@@ -152,8 +153,14 @@ func verifC20RenderReq(o arvados.ListOptions) string {
 	if o.BypassFederation {
 		b = "1"
 	}
-	return fmt.Sprintf("F=%s S=%s W=%s C=%s L=%d O=%d R=%s B=%s", verifC20Join(fs, ";"), sel, verifC20Str(o.ForwardedFor),
-		verifC20Str(o.Count), o.Limit, o.Offset, verifC20Join(o.Order, "+"), b)
+	bit := func(v bool) string {
+		if v {
+			return "1"
+		}
+		return "0"
+	}
+	return fmt.Sprintf("F=%s S=%s W=%s C=%s L=%d O=%d R=%s B=%s X=%s%s%s", verifC20Join(fs, ";"), sel, verifC20Str(o.ForwardedFor),
+		verifC20Str(o.Count), o.Limit, o.Offset, verifC20Join(o.Order, "+"), b, bit(o.IncludeTrash), bit(o.IncludeOldVersions), bit(o.Distinct))
 }
 
 // does a held object match all uuid filters of the request (other filters are ignored)
@@ -416,7 +423,10 @@ func verifC20Case(line string, overrun chan string) (out string) {
 		return "bad-op"
 	}
 	op := strings.Split(f[5], "/")
-	if len(op) != 7 {
+	if len(op) == 7 {
+		op = append(op, "000")
+	}
+	if len(op) != 8 || len(op[7]) != 3 || strings.Trim(op[7], "01") != "" {
 		return "bad-op"
 	}
 	unstr := func(s string) string {
@@ -426,6 +436,7 @@ func verifC20Case(line string, overrun chan string) (out string) {
 		return s
 	}
 	var opts arvados.ListOptions
+	opts.IncludeTrash, opts.IncludeOldVersions, opts.Distinct = op[7][0] == '1', op[7][1] == '1', op[7][2] == '1'
 	opts.Count = unstr(op[0])
 	if opts.Limit, err = strconv.ParseInt(op[1], 10, 64); err != nil {
 		return "bad-op"
